@@ -300,6 +300,18 @@ SPECS = [
     _spec("sel_prop_values", select=SelectPropertyValues("k"), order=(O.ALPHA,),
           sym={"0.pkey": "i0", "1.pkey": "i1", "0.pval": "i2", "1.pval": "i3"},
           dom={"i0": ["", "k", "j"], "i1": ["", "k", "j"], "i2": ["1", "2"], "i3": ["1", "2"]}),
+    # three notes, selection order = file order: repeated values that are NOT adjacent (1, 2, 1) must still be listed once
+    _spec("sel_prop_values_none3", select=SelectPropertyValues("k"), order=(O.NONE,),
+          sym={"0.pval": "i0", "1.pval": "i1", "2.pval": "i2", "1.pkey": "i3"},
+          dom={"i0": ["1", "2"], "i1": ["1", "2"], "i2": ["1", "2"], "i3": ["k", "j"]}, n=3,
+          base={"0.pkey": "k", "2.pkey": "k"}),
+    _spec("sel_count_prop_values_none3", select=SelectAggregation("count", SelectPropertyValues("k")), order=(O.NONE,),
+          sym={"0.pval": "i0", "1.pval": "i1", "2.pval": "i2"},
+          dom={"i0": ["1", "2"], "i1": ["1", "2"], "i2": ["1", "2"]}, n=3,
+          base={"0.pkey": "k", "1.pkey": "k", "2.pkey": "k"}),
+    _spec("sel_area_none3", select=S.AREA, order=(O.NONE,),
+          sym={"0.area": "i0", "1.area": "i1", "2.area": "i2"},
+          dom={"i0": ["a", "b"], "i1": ["a", "b"], "i2": ["a", "b"]}, n=3),
     _spec("sel_area_alpha_grouped", select=S.AREA, order=(O.ALPHA,), group=(G.FILE,),
           sym={"0.area": "i0", "1.area": "i1", "2.area": "i2", "2.path": "i3"},
           dom={"i0": ["z", "a"], "i1": ["m", "a"], "i2": ["a", "z"], "i3": R(0, 1)}, n=3, base={"0.body": "c", "1.body": "b", "2.body": "a"}),
